@@ -45,7 +45,7 @@ BUILTIN_NAMES = {
 }
 SPEC_NAMES = {
     "old", "result", "exc", "forall", "exists", "implies", "ite", "occ", "pm", "first", "isfirst", "nofirst", "flat",
-    "no_occ", "iff", "unit", "empty_seq", "fn", "typeof", "isnone", "fresh_call",
+    "no_occ", "iff", "Resync", "rk", "view_lo", "view_hi", "view_of", "unit", "empty_seq", "fn", "typeof", "isnone", "fresh_call",
 }
 ALLOWED_EXTERNAL_CONST_MODULES = {"errno", "math", "selectors", "socket", "ssl", "sys", "os"}
 
@@ -135,6 +135,7 @@ class EngineCore:
         self.infeasible_pruned = 0
         self.paths_explored = 0
         self._feas_cache: dict = {}
+        self._ident_count: dict[str, int] = {}
         self.module_frames: dict[str, Ref] = {}
         self.max_depth = 40
 
@@ -145,11 +146,14 @@ class EngineCore:
         if isinstance(goal, bool):
             goal = z3.BoolVal(goal)
         g = z3.simplify(goal)
+        base = f"{self.cur_fn_key}:{kind}:{line}:{name}"
+        n = self._ident_count.get(base, 0) + 1
+        self._ident_count[base] = n
         if z3.is_true(g):
-            ident = f"{self.cur_fn_key}:{kind}:{line}:{name}"
+            ident = f"{base}#{n}"
             self.obligations.append(Obligation(ident, self.cur_fn_key, kind, line, [], z3.BoolVal(True), tuple(tags), note, status="trivial"))
             return
-        ident = f"{self.cur_fn_key}:{kind}:{line}:{name}"
+        ident = f"{base}#{n}"
         self.obligations.append(Obligation(ident, self.cur_fn_key, kind, line, list(st.pc), goal, tuple(tags), note))
 
     def feasible(self, st: State, extra=None) -> bool:
@@ -221,6 +225,12 @@ class EngineCore:
             fr = d.get("$parent")
         if name in ctx.specials:
             return ctx.specials[name]
+        if ctx.spec and ctx.old is not None:
+            # a parameter deleted by the body (`del buffer`) is still nameable in specifications
+            ost, ofr = ctx.old
+            d = ost.heap.get(ofr.oid, {})
+            if name in d:
+                return d[name]
         r = self.P.resolve_global(ctx.func.module, name)
         if r is not None:
             return self.global_to_value(r, st, ctx)
